@@ -27,6 +27,7 @@ inductive Spec where
   | timeout (inner : Inner) (limit : Nat)
   | interval (start period n work : Nat)
   | noise                  -- a task woken repeatedly from another thread; it owns no timer
+  | busyIo                 -- a task completing cheap I/O until the others are done; it owns no timer
   /-- interval whose `tick()` futures are, per character of the pattern, `d` awaited to completion,
   `p` polled once and dropped, `t` wrapped in a 2 ms `timeout` -/
   | intervalCancel (start period : Nat) (pattern : List Char)
@@ -70,6 +71,7 @@ the task can make further progress right now (`false` = it returned `Poll::Pendi
 def trans (w : Wheel) (now id : Nat) : Task → Wheel × Task × Bool
   | .done t => (w, .done t, false)
   | .init .noise => (w, .done "noise", false)
+  | .init .busyIo => (w, .done "busy", false)
   | .init (.intervalCancel start period pat) =>
     match intervalAt start period with
     | none => (w, .done "panic", false)
@@ -237,8 +239,10 @@ def loop (w : Wheel) (now : Nat) (all : Bool) (wokenIds : List Nat) (tasks : Lis
       | none => ⟨tasks1, w1.entries.length, true⟩
       | some t =>
         let now' := now + t
-        let (w2, expired) := wake w1 now'
-        loop w2 now' false (woken expired) tasks1 fuel
+        -- `poll_with`; the verdict tokens do not depend on how the driver poll returned
+        match pollWith w1 now' .timedOut with
+        | none => ⟨tasks1, w1.entries.length, true⟩
+        | some (w2, expired) => loop w2 now' false (woken expired) tasks1 fuel
 
 /-- scenario start (ms); offsets in the lines are relative to it and may be negative -/
 def t0 : Nat := 100000
@@ -258,6 +262,7 @@ def parseSpec (s : String) : Option Spec :=
     | some a, some l => some (.timeout (.sleep a) l)
     | _, _ => none
   | ["n", _count, _every] => some .noise
+  | ["z"] => some .busyIo
   | ["ic", st, p, pat] =>
     match parseOff st, p.toNat? with
     | some st, some p => some (.intervalCancel st p pat.toList)
